@@ -161,13 +161,23 @@ func runC19(r *Report, rng *rand.Rand, n int) {
 	// characters (no short last line) and until the last line is as short as base64 allows (4).
 	for _, target := range []int{0, 4, 76} {
 		d, _ := gendoc.Generate(rng, tameOpts())
+		var padOp *gendoc.Operation
+		for _, pi := range d.Paths {
+			if len(pi.Ops) > 0 {
+				padOp = pi.Ops[0]
+				break
+			}
+		}
+		if padOp == nil {
+			continue
+		}
 		hit := false
 		for try := 0; try < 120 && !hit; try++ {
 			pad := make([]byte, 1+try)
 			for j := range pad {
 				pad[j] = byte('a' + rng.Intn(26))
 			}
-			d.Paths[0].Ops[0].Fields["description"] = string(pad)
+			padOp.Fields["description"] = string(pad)
 			one(-1, d, gendoc.FilterCfg{}, true)
 			if lastTotal >= 0 && lastTotal%80 == target {
 				hit = true
